@@ -12,7 +12,7 @@ import (
 func init() {
 	register(&Check{
 		ID: "C06", Level: "exploration", QuickSecs: 150, ThoroughSecs: 1200,
-		Rule:        "(F1) all block-free bodies over {'a','b',\"ab\",\"\",[ab],[^a],.} x {?,*,+,&,!} x seq/choice up to N nodes (quick 4, thorough 5); (F2) every single label+action decoration for N<=3; (F3) forced revisits: a rule R (every body up to 4 nodes, every single label placement, with a rule-level action, an always-failing action error, or a label-dependent predicate) reached at one offset along two paths by the templates {R 'b' / R, &R R, R 'b' / . r:R {act}, R / . R, (R 'b' / R)*}. Inputs over {a,b} up to L=3 (4). All 8 combinations of Memoize, Debug, Statistics: success/failure, value and code-block errors must equal the default-option run (which itself is compared with the reference); with Memoize every (block, start offset) is invoked at most once and Stats.ExprCnt <= (#expressions of the emitted grammar) x (len+1). Non-trivial = under Memoize at least one memo hit changed the number of block invocations or evaluated expressions.",
+		Rule:        "(F1) all block-free bodies over {'a','b',\"ab\",\"\",[ab],[^a],.} x {?,*,+,&,!} x seq/choice up to N nodes (quick 4, thorough 5); (F2) every single label+action decoration for N<=3; (F3) forced revisits: a rule R (every body up to 4 nodes, every single label placement, with a rule-level action, an always-failing action error, or a label-dependent predicate) reached at one offset along two paths by the templates {R 'b' / R, &R R, R 'b' / . r:R {act}, R / . R, (R 'b' / R)*}. (F4) left-recursive grammars generated with -support-left-recursion (direct, two-level tower, indirect pairs with both name orders entered through either rule). Inputs over {a,b} up to L=3 (4). All 8 combinations of Memoize, Debug, Statistics: success/failure, value and code-block errors must equal the default-option run (which itself is compared with the reference); with Memoize every (block, start offset) is invoked at most once and Stats.ExprCnt <= (#expressions of the emitted grammar) x (len+1). Non-trivial = under Memoize at least one memo hit changed the number of block invocations or evaluated expressions.",
 		Assumptions: []string{"E1 loader", "blocks are pure functions of text, pos and their labels by construction"},
 		Run:         runC06,
 	})
@@ -48,6 +48,8 @@ func runC06(c *ShardCtx) {
 		quirks[f.Quirk] = f.ID
 	}
 	idx := 0
+	gen := core.Gen{}
+	var leaders map[string]bool // indirect cycles: the leader grows the seed (see C08)
 	run := func(g *peg.Grammar, script map[int]*rtapi.Block) {
 		idx++
 		if !c.Mine(idx) {
@@ -55,14 +57,16 @@ func runC06(c *ShardCtx) {
 		}
 		text := peg.Print(g, nil)
 		c.Res.Grammars++
-		b := buildOrCount(c, text, core.Gen{})
+		b := buildOrCount(c, text, gen)
 		if b == nil {
 			return
 		}
 		for _, in := range inputs {
 			o0 := rtapi.RunOpts{MaxExpr: 3000}
 			base := b.Run(in, &o0, script)
-			ref := peg.Run(g, in, script, core.RefOptions(&o0, b.Flags))
+			ro0 := core.RefOptions(&o0, b.Flags)
+			ro0.LeaderHeads = leaders
+			ref := peg.Run(g, in, script, ro0)
 			c.Res.Evaluations++
 			if base.Diverged || ref.Outcome != peg.OResult {
 				c.Res.Skipped++
@@ -84,7 +88,7 @@ func runC06(c *ShardCtx) {
 				} else if failed(obs) != failed(base) || obs.Val != base.Val || strings.Join(scriptErrs(obs), "|") != strings.Join(scriptErrs(base), "|") || obs.Panic != base.Panic {
 					diffs = append(diffs, fmt.Sprintf("result differs from default options: %s %v vs %s %v", obs.Val, msgs(obs), base.Val, msgs(base)))
 				}
-				if o.Memoize && !obs.Diverged {
+				if o.Memoize && !obs.Diverged && !b.Flags.LeftRecursion { // growth iterations legitimately re-evaluate a left-recursive rule at its offset
 					seen := map[string]bool{}
 					for _, e := range obs.Log {
 						k := fmt.Sprintf("%d@%d", e.ID, e.Pos[2])
@@ -128,12 +132,48 @@ func runC06(c *ShardCtx) {
 				}
 				var cc *ConfCase
 				if !obs.Diverged {
-					cc = &ConfCase{Text: text, Gen: core.Gen{}, HasState: true, HasMemo: true, Runs: []ConfRun{{Input: in, Opts: o, Script: script, Obs: obs}, {Input: in, Opts: o0, Script: script, Obs: base}}}
+					cc = &ConfCase{Text: text, Gen: gen, HasState: true, HasMemo: true, Runs: []ConfRun{{Input: in, Opts: o, Script: script, Obs: obs}, {Input: in, Opts: o0, Script: script, Obs: base}}}
 				}
-				c.Report(Violation{Desc: diffs[0], Grammar: text, Gen: "-", Input: string(in), InputHex: hexOf(in), Opts: optsString(&o) + " " + scriptString(script), Diffs: diffs}, known, cc)
+				c.Report(Violation{Desc: diffs[0], Grammar: text, Gen: gen.String(), Input: string(in), InputHex: hexOf(in), Opts: optsString(&o) + " " + scriptString(script), Diffs: diffs}, known, cc)
 			}
 		}
 	}
+	// F4: left-recursive grammars (generated with -support-left-recursion): direct,
+	// towers and indirect pairs with both name orders, entered through either rule
+	gen = core.Gen{LeftRec: true}
+	{
+		lit := peg.Lit
+		var lrs []*peg.Grammar
+		for _, t := range []string{"a", "b"} {
+			for _, u := range []string{"a", "b"} {
+				for _, names := range [][2]string{{"A", "B"}, {"B", "A"}} {
+					x, y := names[0], names[1]
+					lrs = append(lrs,
+						&peg.Grammar{Rules: []*peg.Rule{{Name: "S", Expr: peg.Action(0, peg.Label("v", peg.Ref(x)))}, {Name: x, Expr: peg.Choice(peg.Action(0, peg.Seq(peg.Label("l", peg.Ref(y)), lit(t))), lit("a"))}, {Name: y, Expr: peg.Choice(peg.Action(0, peg.Seq(peg.Label("l", peg.Ref(x)), lit(u))), lit("b"))}}},
+						&peg.Grammar{Rules: []*peg.Rule{{Name: "S", Expr: peg.Action(0, peg.Label("v", peg.Ref(y)))}, {Name: x, Expr: peg.Choice(peg.Seq(peg.Ref(y), lit(t)), lit("a"))}, {Name: y, Expr: peg.Choice(peg.Seq(peg.Ref(x), lit(u)), lit("b"))}}},
+						&peg.Grammar{Rules: []*peg.Rule{{Name: x, Expr: peg.Choice(peg.Seq(peg.Ref(y), lit(t)), lit("a"))}, {Name: y, Expr: peg.Choice(peg.Seq(peg.Ref(x), lit(u)), lit("b"))}}},
+					)
+				}
+				lrs = append(lrs,
+					&peg.Grammar{Rules: []*peg.Rule{{Name: "S", Expr: peg.Action(0, peg.Label("v", peg.Ref("E")))}, {Name: "E", Expr: peg.Choice(peg.Action(0, peg.Seq(peg.Label("l", peg.Ref("E")), lit(t), peg.Label("r", peg.Ref("T")))), peg.Ref("T"))}, {Name: "T", Expr: peg.Choice(peg.Seq(peg.Ref("T"), lit(u), lit("b")), lit("b"))}}},
+					&peg.Grammar{Rules: []*peg.Rule{{Name: "E", Expr: peg.Choice(peg.Seq(peg.Ref("E"), lit(t)), peg.Seq(peg.Ref("E"), lit(u), lit("b")), lit("b"))}}},
+				)
+			}
+		}
+		for _, g := range lrs {
+			if c.Expired("F4") {
+				return
+			}
+			peg.Renumber(g, 1)
+			peg.AssignArgs(g)
+			leaders = nil
+			if g.Rule("A") != nil && g.Rule("B") != nil {
+				leaders = map[string]bool{"A": true}
+			}
+			run(g, nil)
+		}
+	}
+	gen, leaders = core.Gen{}, nil
 	// F1
 	en := peg.NewEnumerator(peg.Alphabet{Leaves: baseLeaves(), Unary: allUnary, Seq: true, Choice: true, MaxArity: 3})
 	for _, body := range en.UpTo(n) {
